@@ -19,6 +19,7 @@ import shutil
 from vlib import driver
 from vlib.gen import c13_gen as gen
 from vlib.ref import c13_ref as ref
+from vlib import fuzz
 from vlib.runner import Sub, Verdict, fail
 
 PROPERTY_ID = 'C13'
@@ -436,6 +437,44 @@ def check_api_ranges(case) -> Verdict:
 
 
 # ------------------------------------------------------------------------------------------------
+def decode_lm(data: bytes):
+    """bytes -> {'lm': line-matcher tree (<= 3 levels of ! && || above line-num leaves with integer-matcher trees of
+    <= 3 levels), 'maxn': 7}: a byte-driven recursive builder (for the coverage-guided campaign)"""
+    it = iter(data)
+
+    def nxt():
+        return next(it, 0)
+
+    def im(depth):
+        k = nxt() % 8
+        if depth == 0 or k < 3:
+            c = nxt()
+            if c % 13 == 12:
+                return ['const', bool(c & 16)]
+            return ['cmp', gen.OPS[c % 6], str((nxt() % 14) - 2)]
+        if k < 5:
+            return ['not', im(depth - 1)]
+        return ['and' if k < 7 else 'or', [im(depth - 1) for _ in range(2 + nxt() % 2)]]
+
+    def lm(depth):
+        k = nxt() % 8
+        if depth == 0 or k < 3:
+            c = nxt() % 10
+            if c < 7:
+                return ['ln', im(3)]
+            if c == 7:
+                return ['const', bool(nxt() & 1)]
+            if c == 8:
+                return ['ce']
+            r = gen.REGEXES[nxt() % len(gen.REGEXES)]
+            return ['cm', r[0], r[1]]
+        if k < 5:
+            return ['not', lm(depth - 1)]
+        return ['and' if k < 7 else 'or', [lm(depth - 1) for _ in range(2 + nxt() % 2)]]
+
+    return {'lm': lm(3), 'maxn': 7}
+
+
 SUBS = [
     Sub('api_interval_exhaustive', check_api_matcher, enumerate=gen.enum_interval_trees, exhaustive=True),
     Sub('api_ranges_exhaustive', check_api_ranges, enumerate=gen.enum_range_lists, exhaustive=True),
@@ -447,4 +486,10 @@ SUBS = [
         budget={'quick': 2400, 'thorough': 100000}, render=build_cli),
     Sub('cli_ranges', check_cli, strategy=lambda tier: gen.cli_cases(tier, 'ranges'),
         budget={'quick': 1200, 'thorough': 50000}, render=build_cli),
+    fuzz.fuzz_sub('api_matcher_fuzz', 'props.c13_filter', 'check_api_matcher', 'decode_lm', 'api_matcher_random',
+                  runs={'quick': 8000, 'thorough': 600000}, shards={'quick': 8, 'thorough': 16}, max_len=48,
+                  instrument=('exactly_lib.impls.types.interval', 'exactly_lib.util.interval',
+                              'exactly_lib.impls.types.line_matcher', 'exactly_lib.impls.types.integer_matcher',
+                              'exactly_lib.impls.types.string_transformer.impl.filter'),
+                  seeds=[bytes([0, 0, 5, 5, 0, 3, 4, 0, 9, 12]), bytes([3, 6, 0, 0, 7, 0, 1, 3, 0, 0, 6, 2, 11])]),
 ]
